@@ -570,7 +570,9 @@ func r12_7(c *Ctx, r *Report) {
 			}
 			a := symExpr(c, bo.X, nil, map[ssa.Value]string{me: "@"}, 0)
 			bb := symExpr(c, bo.Y, nil, map[ssa.Value]string{ms: "@"}, 0)
-			short := func(s string) string { return strings.ReplaceAll(strings.ReplaceAll(s, "calendar.(*Solar).", ""), "LunarUtil.", "") }
+			short := func(s string) string {
+				return strings.ReplaceAll(strings.ReplaceAll(s, "calendar.(*Solar).", ""), "LunarUtil.", "")
+			}
 			if a == bb {
 				r.ok(rule, construct, c.pos(bo.Pos()), "both ends: "+short(a))
 			} else {
@@ -580,7 +582,6 @@ func r12_7(c *Ctx, r *Report) {
 	}
 	r.check(n == 1, rule, "calendar.(*Yun).computeStart has one slot difference", c.fnPos(fn), fmt.Sprintf("%d subtractions of two slot indices found", n))
 }
-
 
 func r12_2_tables(c *Ctx, r *Report, rule string, fn *ssa.Function) {
 	recv := ssa.Value(fn.Params[0])
